@@ -48,7 +48,10 @@ def body(c):
     with open(cpath, "w") as f:
         for x in cases:
             f.write(json.dumps(x) + "\n")
-    _, out = c.vh(["c01", "replay", cpath], timeout=3000)
+    out = c.vh_abortable(["c01", "replay", cpath], "c01:abort", "running the specification's cases", timeout=3000)
+    if out is None:
+        c.finish_kw = dict(exhaustive=False, rule="the code under test killed the process on one of the specification's cases; the run ended there")
+        return
     got = [json.loads(l)["got"] for l in out.split("\n") if l.strip()]
     if len(got) != len(cases):
         raise ToolError("replay returned %d results for %d cases" % (len(got), len(cases)))
@@ -86,7 +89,9 @@ def body(c):
     c.sample({"program": cases[len(cases) // 2]["dag"], "witnesses": cases[len(cases) // 2]["wit"], "spec bits": cases[len(cases) // 2]["pb"]})
     runs = 1000 if q else 8000
     tpath = os.path.join(c.work, "trace.ndjson")
-    c.vh(["c01", "record", runs, tpath], timeout=3000)
+    if c.vh_abortable(["c01", "record", runs, tpath], "c01:abort", "running generated and mutated inputs", timeout=3000) is None:
+        c.finish_kw = dict(exhaustive=False, rule="the code under test killed the process on a generated input; the run ended there")
+        return
     def describe(ev):
         return ("c01:trace", json.dumps({k: ev[k] for k in ev if k not in ("dag", "ty", "aux")})[:500])
     validate_trace(c, "Trace_Codec", "Trace_Codec.cfg", tpath, describe, heap="8g", env={"JETS": jets_file(c), "ALLOC_C0": 0, "ALLOC_K": 0})
